@@ -1003,35 +1003,63 @@ def monitor_defaults_run(ctx):
                                                   "pipeflow(mode='sequential')"})
 
 
+def container_values():
+    """one value of every container kind (none of them is a valid scalar argument)"""
+    import numpy as np
+    import pandas as pd
+    return [("list", ["two", "names"]), ("tuple", (1.5, 2.5)), ("set", {1.5, 2.5}), ("frozenset", frozenset({1.5, 2.5})),
+            ("dict", {"a": 1.5}), ("ndarray", np.array([1.5, 2.5])), ("Series", pd.Series([1.5, 2.5]))]
+
+
 def monitor_value_faults(ctx, sigs):
-    """non-reference arguments of the wrong shape: the call must raise and leave the net unchanged"""
+    """rejected-call atomicity for malformed VALUES: every container kind (list, tuple, set, frozenset, dict, ndarray,
+    Series) at EVERY parameter position (reference, value, index) of every single create function; NaN in a bool list
+    for the bulk functions.  A call that raises must leave the whole net (deep snapshot) unchanged; an accepted call is
+    counted only (the value clause is covered by the Coq correspondence)."""
     import pandapipes as pp
-    net0 = base_nets(ctx)[1][1]()
+    build = base_nets(ctx)[1][1]
+    net = build()
+    before = deep_snapshot(net)
+    n_acc = 0
     for sig in sigs:
-        if sig.table not in net0:
+        if sig.table not in net:
             continue
-        kw, n = valid_kwargs(sig, net0, ctx.rng, n=2 if sig.bulk else None)
         if sig.bulk:
+            kw, n = valid_kwargs(sig, net, ctx.rng, n=2)
             kw["in_service"] = [True, float("nan")]
-            fault = "nan_in_bool_column"
+            trials = [("nan_in_bool_column", "in_service", "list", kw)]
         else:
-            kw["name"] = ["two", "names"]
-            fault = "non_scalar_value"
-        net = copy.deepcopy(net0)
-        before = deep_snapshot(net)
-        try:
-            getattr(pp, sig.fn)(net, **copy.deepcopy(kw))
-            continue                                  # accepted: not a rejected call
-        except Exception as e:  # noqa: BLE001
-            exc = "%s: %s" % (type(e).__name__, str(e)[:100])
-        diff = snap_diff(before, deep_snapshot(net))
-        ctx.case({"value_fault": sig.fn, "fault": fault}, True)
-        ctx.count("fault:" + fault)
-        if diff:
-            ctx.violation({"clause": "atomic", "fault": fault, "writer": "_set_multiple_entries" if sig.bulk else "_set_entries",
-                           "fn": sig.fn},
-                          "%s raised (%s) but changed %s" % (sig.fn, exc, diff),
-                          {"net": "sparse", "fn": sig.fn, "kwargs": jsonable(kw)})
+            trials = []
+            base_kw, _ = valid_kwargs(sig, net, ctx.rng)
+            for p_, _d in sig.params:
+                if p_ in ("geodata", "poly_coefficents", "pressure_list", "flowrate_list", "check_controllability"):
+                    continue                      # parameters that are containers by design / flags outside the rows
+                for kind, val in container_values():
+                    kw = dict(base_kw)
+                    kw[p_] = val
+                    trials.append(("non_scalar_value", p_, kind, kw))
+        for fault, param, kind, kw in trials:
+            try:
+                getattr(pp, sig.fn)(net, **copy.deepcopy(kw))
+                accepted, exc = True, ""
+            except Exception as e:  # noqa: BLE001
+                accepted, exc = False, "%s: %s" % (type(e).__name__, str(e)[:100])
+            after = deep_snapshot(net)
+            ctx.count("fault:" + fault)
+            ctx.count("container:" + kind)
+            ctx.case({"value_fault": sig.fn, "param": param, "kind": kind}, True, key="vf:%s:%s:%s" % (sig.fn, param, kind))
+            if accepted:
+                n_acc += 1
+            elif after != before:
+                ctx.violation({"clause": "atomic", "fault": fault, "writer": "_set_multiple_entries" if sig.bulk else "_set_entries",
+                               "fn": sig.fn, "param": param, "kind": kind},
+                              "%s(%s=<%s>) raised (%s) but changed %s" % (sig.fn, param, kind, exc, snap_diff(before, after)),
+                              {"net": "sparse", "fn": sig.fn, "param": param, "container": kind, "kwargs": jsonable({k: v for k, v in kw.items() if k != param}),
+                               "how": "base net `sparse` of tools/props/c16.py; pandapipes.%s(net, **kwargs, %s=<a %s>)" % (sig.fn, param, kind)})
+            if after != before:
+                net = build()
+                before = deep_snapshot(net)
+    ctx.count("container_values_accepted", n_acc)
 
 
 def monitor_eg_types(ctx):
